@@ -432,3 +432,35 @@ func (m *model) taintFor(idx int, kind string) *taint {
 	}
 	return cands[0]
 }
+
+// taintOnPath returns undecodable bytes that a sequential reader passes on its
+// way to record idx: the reader starts behind journal record lo (-1: at the
+// beginning of the oldest file), the bytes lie in a file that is still on disk
+// - the record's own file or any earlier one, a GroupReader runs on into the
+// next files - and the first record appended behind them (t.Idx) is at or
+// before idx and behind lo.  Bytes that are not a whole frame break the framing
+// of everything behind them, in later files too.
+func (m *model) taintOnPath(lo, idx int) *taint {
+	if idx < 0 || idx >= len(m.J) {
+		return nil
+	}
+	var cands []*taint
+	for _, f := range m.Files {
+		for _, t := range f.Taints {
+			if t.Idx > lo && t.Idx <= idx {
+				cands = append(cands, t)
+			}
+		}
+	}
+	if len(cands) == 0 {
+		return nil
+	}
+	for _, want := range []string{"short-tail", "catchup-not-run", "tail-kept-after-catchup"} {
+		for _, t := range cands {
+			if t.Cause == want {
+				return t
+			}
+		}
+	}
+	return cands[0]
+}
